@@ -112,7 +112,12 @@ class NumStr(SpecialStr):
                 if self.suf:
                     if len(t) <= len(self.suf):
                         return z3.BoolVal(self.suf.endswith(t))
-                    raise Unmodelled('ends_with longer than the suffix of a numeral')
+                    head = t[:len(t) - len(self.suf)]
+                    if t[len(t) - len(self.suf):] != self.suf:
+                        return z3.BoolVal(False)
+                    if any(not ch.isdigit() for ch in head):
+                        return z3.BoolVal(False)        # the characters before the suffix are digits
+                    raise Unmodelled('ends_with reaching into the digits of a numeral')
                 if not t[-1].isdigit():
                     return z3.BoolVal(False)
                 raise Unmodelled('ends_with digits on numeral')
@@ -158,6 +163,14 @@ class NumStr(SpecialStr):
                     if ctx.decide(fits):
                         return ok(-v)
                     return err(UNIT)
+        import re as _re
+        if ty == 'f64' and ctx.ghost.get('exact_f64') and not self.pre and not self.signed and (self.suf or '') in ('', '.5', '.25', '.0625'):
+            den = {'': 1, '.5': 2, '.25': 4, '.0625': 16}[self.suf or '']
+            return ok(ExactF64(self.bv * den + (1 if den > 1 else 0), den))
+        if ty == 'f64' and not self.pre and _re.fullmatch(r'\.[0-9]+', self.suf or ''):
+            # "<digits>.<digits>": the decimal fraction (exact for the halves / quarters the drivers use)
+            base = z3.fpToFP(z3.RNE(), self.bv, z3.Float64()) if self.signed else z3.fpToFPUnsigned(z3.RNE(), self.bv, z3.Float64())
+            return ok(z3.fpAdd(z3.RNE(), base, z3.FPVal(float('0' + self.suf), z3.Float64())))
         if self.pre or self.suf:
             # "<digits><suffix>" is not an integer / float literal unless the suffix is empty
             if ty in INT_W or ty == 'f64':
@@ -262,6 +275,41 @@ def render_value(ctx, v, kind='display', ty=''):
     if hasattr(v, 'display'):
         return v.display(ctx, kind)
     raise Unmodelled('%s of %r (%s)' % (kind, type(v).__name__, ty))
+
+
+class ExactF64:
+    """an f64 known to be the exact rational num/den (den a power of two, |value| < 2^53): float multiplications by
+    integer-valued constants and the cast to an integer are then integer arithmetic — no IEEE bit-blasting.
+    The side condition (the product stays below 2^53) is checked on every operation; if it can fail the path is UNMODELLED."""
+    __slots__ = ('num', 'den')
+
+    def __init__(self, num, den=1):
+        self.num, self.den = num, den
+
+    def __repr__(self):
+        return 'ExactF64(%s/%d)' % (self.num, self.den)
+
+    def binop(self, ctx, op, other, ty):
+        if op == 'Mul' and z3.is_fp(other):
+            o = z3.simplify(other)
+            if z3.is_fp_value(o):
+                r = z3.simplify(z3.fpToReal(o))
+                if r.denominator_as_long() == 1 and r.numerator_as_long() > 0:
+                    k = r.numerator_as_long()
+                    num = self.num * k
+                    lim = z3.BitVecVal((1 << 53) * self.den, 64)
+                    okc = z3.And(z3.BVMulNoOverflow(self.num, z3.BitVecVal(k, 64), False), z3.ULT(num, lim))
+                    if ctx.check(z3.Not(okc)) != z3.unsat:
+                        raise Unmodelled('exact-f64 abstraction: the product may exceed 2^53')
+                    return ExactF64(num, self.den)
+        raise Unmodelled('exact-f64 abstraction: %s with %r' % (op, other))
+
+    def cast(self, ctx, to, kind, from_ty):
+        if kind == 'FloatToInt' and to in INT_W:
+            w = INT_W[to]
+            q = z3.UDiv(self.num, z3.BitVecVal(self.den, 64))
+            return q if w == 64 else z3.Extract(w - 1, 0, q)
+        raise Unmodelled('exact-f64 abstraction: cast %s' % kind)
 
 
 class FloatStr(SpecialStr):
